@@ -37,7 +37,7 @@ fn model_failing() -> Model {
 }
 
 pub const N_OPS: usize = 11;
-const OP_NAMES: [&str; N_OPS] = ["convert(cubo)", "convert(e4h_medianeras)", "convert(generated)", "indicators(cubo.json, D3)", "indicators(ejemploviv_unif.json)", "indicators(box, B3)", "indicators(box with shaded window, A3c)", "indicators(broken model, E1)", "collect_hulc_data(cubo, extra)", "convert(cubo with three shades without a name)", "convert(generated, same names with other contents)"];
+const OP_NAMES: [&str; N_OPS] = ["convert(cubo)", "convert(e4h_medianeras)", "convert(generated)", "indicators(cubo.json, D3)", "indicators(ejemploviv_unif.json)", "indicators(box, B3)", "indicators(box with shaded window, A3c)", "indicators(broken model, E1)", "collect_hulc_data(cubo, extra)", "convert(cubo with three shades without a name and a thermal bridge with a name of the user's)", "convert(generated, same names with other contents)"];
 
 /// cubo with three vertex-defined shades whose name is the empty string (legal BDL; whatever the converter calls
 /// them must not depend on what else the process is doing)
@@ -48,6 +48,8 @@ fn unnamed_shades_text() -> String {
         let x = 12.0 + 3.0 * k as f32;
         extra += &format!("\"\" = BUILDING-SHADE\n    TRAN = 0\n    REFL = 0.7\n    V1 =( {x}, -5, 0 )\n    V2 =( {}, -5, 0 )\n    V3 =( {}, -5, {} )\n    V4 =( {x}, -5, {} )\n    ..\n", x + 2.0, x + 2.0, 3 + k, 3 + k);
     }
+    // and one thermal bridge carries a name of the user's instead of one of the thirteen standard ones
+    let text = text.replacen("\"PILAR\" = THERMAL-BRIDGE", "\"Encuentro a medida\" = THERMAL-BRIDGE", 1);
     insert_before_end(&text, false, &extra)
 }
 
@@ -895,7 +897,7 @@ pub fn run(ctx: &Ctx) -> i32 {
     }
     ctx.finish(
         "model_checking",
-        &format!("(1) histories: every sequence of 1 and 2 operations over 11 operations (5 conversions incl. a project with three shades without a name and the generated project with every name kept and other contents behind the names, 5 indicator computations incl. a model without windows and a broken model, 1 collect_hulc_data with extra files) and {} sequences of 3 over a 6-operation core, each run in a fresh worker process: the last operation's observation (model JSON bytes / indicators as JSON value) must equal its observation as the only operation of a fresh process, and repeat identically 3x in-process; 4 conversions x 8 fresh processes byte-identical; (2) id locality: for corpus and generated projects, appending each of 12 unrelated definitions (material, layers, glass, frame, gap, polygon, day/week/year schedule, shade, bridge, floor+space+wall; an unused coloured CONSTRUCTION over an existing LAYERS) keeps every pre-existing element id - also when the added definition borrows the name of an existing definition of another kind of the same family (day/week/year schedules; material/layers/glazing/frame/gap) -, and writing the first block of every type twice (straight after itself / again at the end) gives the same bytes on every conversion, on another thread too, and keeps the ids; (3) schedules: controlled scheduler over the three hooked lock sites, real threads, DFS with preemption bounds as listed in schedule_exploration (deadlock / panic / result-vs-sequential-reference per execution, replay determinism checked first), + a free-running 16-thread sampling complement; (4) the 6 shipped (project, reference model) pairs compared through today's serialiser; (5) 3 models x 10 in-place histories (indicators, then an edit through the public fields / purge / check, then indicators on the same object and on its clone) against the edited model loaded afresh from its JSON; (6) the smallest project through hulc2model (twice) and thor -o (onto a new path and onto the path of an earlier, larger export): the library's bytes every time", ctx.tier.pick(36, 216)),
+        &format!("(1) histories: every sequence of 1 and 2 operations over 11 operations (5 conversions incl. a project with three shades without a name and a thermal bridge under a non-standard name, and the generated project with every name kept and other contents behind the names, 5 indicator computations incl. a model without windows and a broken model, 1 collect_hulc_data with extra files) and {} sequences of 3 over a 6-operation core, each run in a fresh worker process: the last operation's observation (model JSON bytes / indicators as JSON value) must equal its observation as the only operation of a fresh process, and repeat identically 3x in-process; 4 conversions x 8 fresh processes byte-identical; (2) id locality: for corpus and generated projects, appending each of 12 unrelated definitions (material, layers, glass, frame, gap, polygon, day/week/year schedule, shade, bridge, floor+space+wall; an unused coloured CONSTRUCTION over an existing LAYERS) keeps every pre-existing element id - also when the added definition borrows the name of an existing definition of another kind of the same family (day/week/year schedules; material/layers/glazing/frame/gap) -, and writing the first block of every type twice (straight after itself / again at the end) gives the same bytes on every conversion, on another thread too, and keeps the ids; (3) schedules: controlled scheduler over the three hooked lock sites, real threads, DFS with preemption bounds as listed in schedule_exploration (deadlock / panic / result-vs-sequential-reference per execution, replay determinism checked first), + a free-running 16-thread sampling complement; (4) the 6 shipped (project, reference model) pairs compared through today's serialiser; (5) 3 models x 10 in-place histories (indicators, then an edit through the public fields / purge / check, then indicators on the same object and on its clone) against the edited model loaded afresh from its JSON; (6) the smallest project through hulc2model (twice) and thor -o (onto a new path and onto the path of an earlier, larger export): the library's bytes every time", ctx.tier.pick(36, 216)),
         true,
         json!({"states": states.max(1), "transitions": transitions.max(1), "traces_validated_against_impl": transitions}),
     )
